@@ -2278,6 +2278,8 @@ where
     use bitstream_io::BigEndian;
 
     debug_assert!(!frame.is_empty());
+    #[cfg(feature = "verif-hooks")]
+    let _verif_task = crate::verif::task("frame");
 
     let size = Counter::new(writer.by_ref());
     let mut w: CrcWriter<_, Crc16> = CrcWriter::new(size);
@@ -2870,6 +2872,8 @@ fn encode_subframe<'c>(
     const WASTED_MAX: NonZero<u32> = NonZero::new(32).unwrap();
 
     debug_assert!(!channel.is_empty());
+    #[cfg(feature = "verif-hooks")]
+    let _verif_task = crate::verif::task("subframe");
 
     if all_0 {
         // all samples are 0
@@ -3033,6 +3037,9 @@ fn encode_fixed_subframe<W: BitWrite>(
 ) -> Result<(), Error> {
     use crate::stream::{SubframeHeader, SubframeHeaderType};
 
+    #[cfg(feature = "verif-hooks")]
+    let _verif_task = crate::verif::task("fixed");
+
     // calculate residuals for FIXED subframe orders 0-4
     // (or fewer, if we don't have enough samples)
     let (order, warm_up, residuals) = {
@@ -3101,6 +3108,9 @@ fn encode_lpc_subframe<W: BitWrite>(
     wasted_bps: u32,
 ) -> Result<(), Error> {
     use crate::stream::{SubframeHeader, SubframeHeaderType};
+
+    #[cfg(feature = "verif-hooks")]
+    let _verif_task = crate::verif::task("lpc");
 
     let LpcSubframeParameters {
         warm_up,
